@@ -8,7 +8,7 @@ T: seeded random corpora (lengths across the field-norm buckets) and random quer
 Every recorded case is judged by TLC against spec/Bm25StructTrace.tla, which recomputes N, n(t), T, tf,
 phrase tf, field-norm ids, the matching set and the symbolic score term from the logged documents and
 compares the score bit patterns of all observation paths (kernel, collector, TopDocs K=.., explain,
-one segment vs many)."""
+one segment vs many vs the many-segment index after IndexWriter::merge of some / all of its segments)."""
 import json
 import os
 import random
@@ -137,7 +137,23 @@ def account(ctx, case, stats):
     """coverage bookkeeping of one accepted case (nothing here is a verdict)"""
     reset = case[0]
     base = json.dumps([reset["docs"], reset["cuts"], reset["dels"]], sort_keys=True)
+    table = stats.get("_table")
     for e in case:
+        if e["ev"] == "index" and e["ix"] == "merged":
+            n = len(e["srcs"])
+            stats["merges"] += 1
+            stats["merges_by_number_of_segments"][str(n)] = stats["merges_by_number_of_segments"].get(str(n), 0) + 1
+            stats["merges_leaving_other_segments"] += 1 if len(e["segs"]) > 1 else 0
+            with_dels = any(d in reset["dels"] for src in e["srcs"] for d in src)
+            stats["merges_after_deletes"] += 1 if with_dels else 0
+            if not with_dels and table:
+                m = next(sg for sg in e["segs"] if sg.get("merged"))
+                lens = [len(reset["docs"][d - 1]["toks"]) + reset["docs"][d - 1]["pad"] for d in m["docs"]]
+                # the case that tells an exact token count from one recomputed from quantised lengths
+                stats["merges_exact_T_with_non_table_lengths"] += 1 if any(x not in table for x in lens) else 0
+        if e["ev"] == "query" and len(e["runs"]) == 3:
+            stats["merged_evaluations"] += 1
+            stats["merged_hits"] += len(e["runs"][2]["hits"])
         if e["ev"] == "index" and e["ix"] == "multi":
             stats["cases_with_several_segments"] += 1 if len(e["segs"]) > 1 else 0
             stats["cases_with_deleted_documents"] += 1 if any(s["dead"] for s in e["segs"]) else 0
@@ -230,6 +246,8 @@ def validate(ctx, events, label, cfg=None, stats=None, max_rounds=10):
         if cases and rounds >= max_rounds:
             log(f"[{label}] stopped after {rounds} rejections; the remaining events were not validated")
             return seen
+    if stats is not None and header and "_table" not in stats:
+        stats["_table"] = set(next((e["tab"] for e in header if e["ev"] == "table"), []))
     for c in cases:
         if id(c) not in dirty:
             ctx.cov["traces_validated_against_impl"] += 1
@@ -322,8 +340,11 @@ def replay_generated(ctx, stats):
     cases = []
     for i, c in enumerate(chosen):
         qs = [concretise_query(q, rng) for q in rng.sample(queries, n_q)]
+        # the merge applied afterwards to the many-segment index: one of the sets TLC listed (9 of 10 cases)
+        several = [m for m in c["merges"] if len(m) >= 2]
+        merge = [] if rng.random() >= 0.9 else rng.choice(several if several and rng.random() < 0.8 else c["merges"])
         cases.append({"tag": f"gen-{i}", "filler": "z", "vocab": ["a", "b", "c"], "docs": concretise_corpus(c, rng),
-                      "cuts": c["cuts"], "dels": c["dels"], "queries": qs, "ks": [1, 2, 1000]})
+                      "cuts": c["cuts"], "dels": c["dels"], "merge": merge, "queries": qs, "ks": [1, 2, 1000]})
     hp = ctx.path("gen_cases.ndjson")
     vlib.write_ndjson(hp, cases)
     n_ok = 0
@@ -370,12 +391,12 @@ def P(*ws):
 
 
 KF_DOCS = [{"toks": ["a"], "pad": 0}, {"toks": ["a", "b"], "pad": 0}, {"toks": ["a", "a", "b", "b", "b"], "pad": 0},
-           {"toks": ["b"], "pad": 3}, {"toks": ["c", "a"], "pad": 7}, {"toks": ["a", "b", "a", "b"], "pad": 40},
+           {"toks": ["b"], "pad": 3}, {"toks": ["c", "a"], "pad": 7}, {"toks": ["a", "b", "a", "b"], "pad": 41},
            {"toks": ["b", "c"], "pad": 0}, {"toks": ["a", "c", "a"], "pad": 100}]
 
 
 def kf_case(tag, queries):
-    return {"tag": tag, "filler": "z", "vocab": ["a", "b", "c"], "docs": KF_DOCS, "cuts": [3, 2, 3], "dels": [],
+    return {"tag": tag, "filler": "z", "vocab": ["a", "b", "c"], "docs": KF_DOCS, "cuts": [2, 2, 2, 2], "dels": [], "merge": [1, 2, 3, 4],
             "queries": queries, "ks": [1, 3, 1000], "explain": "all", "avoid": "none"}
 
 
@@ -393,6 +414,26 @@ def finding_cases():
                                         {"k": "dismax", "tie": 0.0, "qs": [{"k": "bool", "cl": [{"o": "must", "q": T("b")}]}, T("a"), P("c", "a")]}]),
                 DEFAULT_CFG),
     }
+
+
+def merge_cases(ctx, stats):
+    """fixed cases of the merge step: 4, 3, 2 segments and a single one, all / a strict subset (also non-adjacent), after deletes,
+    a source segment that lost all its documents; document lengths 45 and 103 are not values of the field-norm table"""
+    qs = [T("a"), P("a", "b"), {"k": "bool", "cl": [{"o": "should", "q": T("a")}, {"o": "should", "q": T("b")}, {"o": "should", "q": T("c")}]},
+          {"k": "bool", "cl": [{"o": "must", "q": T("a")}, {"o": "should", "q": P("c", "a")}, {"o": "mustnot", "q": P("b", "c")}]},
+          {"k": "boost", "b": 3.7, "q": {"k": "dismax", "tie": 0.3, "qs": [T("a"), {"k": "const", "c": 0.42, "q": T("b")}]}}]
+    cases = []
+    for i, (merge, dels) in enumerate([([1, 2, 3, 4], []), ([1, 3], []), ([2, 4], []), ([2, 3, 4], [3, 8]), ([1, 2], [1, 2]), ([4], [7]), ([1, 2, 3], [])]):
+        c = kf_case(f"merge-{i}", qs)
+        c.update({"merge": merge, "dels": dels, "avoid": DEFAULT_AVOID or "none"})
+        cases.append(c)
+    cp = ctx.path("merge.cases.ndjson")
+    vlib.write_ndjson(cp, cases)
+    tp = ctx.path("merge.trace.ndjson")
+    vlib.run_bin("bm25_driver", ["replay", "--in", cp, "--out", tp], timeout=120)
+    before = ctx.cov["traces_validated_against_impl"]
+    validate(ctx, vlib.read_ndjson(tp), "merge", stats=stats)
+    log(f"[merge] {len(cases)} fixed merge cases, {ctx.cov['traces_validated_against_impl'] - before} accepted")
 
 
 def known_finding_runs(ctx, stats):
@@ -435,7 +476,9 @@ def binding_selftest(ctx, events):
     for c in cases:
         qs = [e for e in c if e["ev"] == "query" and e["runs"][0]["hits"] and e["runs"][0]["tops"]
               and any(leaves(h["term"]) == 1 for h in e["runs"][0]["hits"])]
-        if qs and not c[0]["dels"] and len(c[0]["docs"]) >= 2 and all(e["ev"] in ("reset", "index", "query") for e in c):
+        if qs and not c[0]["dels"] and len(c[0]["docs"]) >= 2 and all(e["ev"] in ("reset", "index", "query") for e in c) \
+                and any(e["ev"] == "index" and e["ix"] == "merged" for e in c) \
+                and any(e["ev"] == "query" and len(e["runs"]) == 3 and any(leaves(h["term"]) == 1 for h in e["runs"][2]["hits"]) for e in c):
             picked.append(c)
         if len(picked) == 2:
             break
@@ -485,6 +528,26 @@ def binding_selftest(ctx, events):
     def m_kernel(tr):
         single_hit(first_query(tr))["kernel"]["hi"] += 1
 
+    def merged_index(tr):
+        return next(e for e in tr if e["ev"] == "index" and e["ix"] == "merged")
+
+    def m_merged_total_tokens(tr):
+        next(sg for sg in merged_index(tr)["segs"] if sg.get("merged"))["T"] -= 1
+
+    def m_merged_doc_freq(tr):
+        next(sg for sg in merged_index(tr)["segs"] if sg.get("merged"))["df"]["a"] += 1
+
+    def m_merged_score(tr):
+        e = next(e for e in tr if e["ev"] == "query" and len(e["runs"]) == 3 and any(leaves(h["term"]) == 1 for h in e["runs"][2]["hits"]))
+        h = next(h for h in e["runs"][2]["hits"] if leaves(h["term"]) == 1)
+        for k in ("coll", "kernel", "expl"):
+            if k in h:
+                h[k]["lo"] ^= 1
+        for t in e["runs"][2]["tops"]:
+            for x in t["res"]:
+                if x["doc"] == h["doc"]:
+                    x["s"]["lo"] ^= 1
+
     def m_single_segment_score(tr):
         e = first_query(tr)
         h = next(h for h in e["runs"][1]["hits"] if leaves(h["term"]) == 1)
@@ -509,7 +572,8 @@ def binding_selftest(ctx, events):
     for name, mut in (("doc_freq_changed", m_doc_freq), ("score_word_flipped", m_score_word), ("topdocs_score_flipped", m_topdocs_score),
                       ("segment_total_tokens_changed", m_total_tokens), ("kernel_term_statistic_changed", m_term_stat),
                       ("hit_dropped", m_hit_dropped), ("fieldnorm_id_changed", m_fieldnorm), ("kernel_score_changed", m_kernel),
-                      ("one_segment_index_scores_flipped", m_single_segment_score)):
+                      ("one_segment_index_scores_flipped", m_single_segment_score), ("merged_total_tokens_changed", m_merged_total_tokens),
+                      ("merged_doc_freq_changed", m_merged_doc_freq), ("merged_index_scores_flipped", m_merged_score)):
         tr = json.loads(json.dumps(base))
         mut(tr)
         p = ctx.path(f"selftest_{name}.ndjson")
@@ -526,11 +590,14 @@ def binding_selftest(ctx, events):
 def new_stats():
     return {"queries": 0, "hits": 0, "hits_single_clause": 0, "hits_multi_clause": 0, "explain_compared": 0,
             "topdocs_scores_compared": 0, "segmentation_compared": 0, "cases_with_several_segments": 0,
+            "merges": 0, "merges_by_number_of_segments": {}, "merges_leaving_other_segments": 0, "merges_after_deletes": 0,
+            "merges_exact_T_with_non_table_lengths": 0, "merged_evaluations": 0, "merged_hits": 0,
             "cases_with_deleted_documents": 0, "fnids": set()}
 
 
 def run(ctx):
-    ctx.cov["rule"] = ("a case = one corpus (documents, cut into segments, optional deletes) indexed twice (many segments / one segment) plus "
+    ctx.cov["rule"] = ("a case = one corpus (documents, cut into segments, optional deletes) indexed as many segments, as one segment, and as many segments "
+                       "of which a chosen set is then merged (IndexWriter::merge(..).wait()), plus "
                        "its queries; an evaluation = one query executed on one corpus (all observation paths, both indexes) and accepted by "
                        "the TLC judge; distinct = distinct (documents, cuts, deletes, query tree incl. float constants); non-trivial = the "
                        "query matches at least one living document and the searcher holds >= 2 documents (so idf / average length are not "
@@ -542,6 +609,11 @@ def run(ctx):
         "specification with the integers the corpus implies, and compares bit patterns",
         "several scoring clauses: scores are compared within Tol(term) = 4*(clauses+boosts) ulps (x4 under a dis-max), the property's "
         "'up to floating-point rounding of the sum'",
+        "merge: without deletes total_num_tokens of the merged segment must be the exact token count and every score bit (collector, TopDocs, "
+        "explain) must equal the un-merged and the one-segment index, except that a sum / dis-max over >= 3 matching clauses is compared within "
+        "the rounding bound (the addition order depends on the segment: BufferedUnionScorer swap-removes exhausted scorers, Intersection sorts "
+        "by cost, block-WAND by current doc); with deletes in a source segment merger.rs documents an approximation by the fieldnorm, so the "
+        "judge demands quantised living tokens <= T <= exact living tokens, and N, n(t) exactly those of the living documents",
         "the harness maps a hit to its corpus document through the fast field `id`; tf / positions / field-norm ids are read from the segment readers",
         "while F17 / F19 are open the default runs steer around them: boosted explain is compared within the rounding bound (bit-exact only in "
         "the dedicated F17 run) and a top-level dis-max over term queries is not sent through TopDocs; once known_findings.json lists them as "
@@ -554,13 +626,19 @@ def run(ctx):
     if not ctx.quick:
         random_cases(ctx, 600, ctx.seed + 1000, stats, label="rand2")
         random_cases(ctx, 80, ctx.seed + 2000, stats, label="rand_big", extra=["--bigpads"])
+    merge_cases(ctx, stats)
     known_finding_runs(ctx, stats)
     binding_selftest(ctx, ev)
+    stats.pop("_table", None)
     stats["fieldnorm_ids_covered"] = len(stats["fnids"])
     stats["fnids"] = sorted(stats["fnids"])
     ctx.cov["observations"] = stats
     if stats["topdocs_scores_compared"] == 0 or stats["explain_compared"] == 0 or stats["hits_multi_clause"] == 0:
         raise vlib.ToolError("an observation path was never compared (TopDocs / explain / several clauses)")
+    by_n = stats["merges_by_number_of_segments"]
+    if not all(by_n.get(k) for k in ("2", "3", "4")) or not stats["merges_after_deletes"] or not stats["merges_leaving_other_segments"] \
+            or not stats["merges_exact_T_with_non_table_lengths"]:
+        raise vlib.ToolError(f"merge coverage incomplete: {by_n}, after deletes {stats['merges_after_deletes']}")
     # a sample of what was executed and judged
     _, cases = split_cases(norm_events(ev2))
     for c in cases:
